@@ -1,5 +1,6 @@
 import OpusProofs.RepackMs
 import OpusProofs.RepackExtRound
+import OpusProofs.RepackExtFull
 import OpusProofs.RepackInPlace
 import OpusProofs.RepackDecode
 import OpusProofs.DecSkelShift
@@ -307,11 +308,47 @@ theorem ms_pad_spec (pre : List Packet) (last : Packet) (hv : ∀ p ∈ pre, Val
   rw [h2]
   omega
 
+/-- Clause "packets carrying extensions are merged / split correctly" (extension carriage, code after
+    fixes 374eedae and ff8edd7a) — FULL for every call without the `pad` flag, i.e. for
+    `opus_repacketizer_out`, `opus_repacketizer_out_range` and the unpad paths; no restriction on the
+    extension lists (the generator's "repeat these extensions" mechanism included, via C16's
+    `generate_parse_full`).  In ANY reachable state, for every valid range, `maxlen`, framing and valid
+    caller extensions `exts`, with `all` = `exts` followed by the gathered extensions (see
+    `out_roundtrip_ext_partial` for the definition) non-empty: a successful output parses back to exactly
+    the selected frames, and its padding region, read by C16's extension parser, yields one entry per
+    element of `all`, and for EVERY output frame `g` the entries of frame `g` are exactly the extensions of
+    `all` with frame `g`, in gathering order, with identical IDs, lengths and payload bytes. -/
+theorem out_roundtrip_ext_nopad (s : Rp) (hs : Reachable s) (b e : Nat) (hb : b < e) (he : e ≤ s.nbFrames)
+    (exts : Array Ext) (hvx : AllValid exts (e - b))
+    (hpos : 0 < (exts ++ (gathered (s.pads.take e) 0 b e).toArray).size)
+    (maxlen : Int) (sd : Bool) (bs : Bytes) (h : outRangeImpl s b e maxlen sd false exts = .ok bs)
+    (rest : Bytes) (hrest : sd = false → rest = []) :
+    ∃ r, parseImpl sd (bs ++ rest) = .ok r ∧
+      slices (bs ++ rest) r.payloadOffset r.sizes = selFrames s b e ∧ r.count = e - b ∧
+      r.toc / 4 = s.toc / 4 ∧ r.packetOffset = bs.length ∧ (bs.length : Int) ≤ maxlen ∧
+      ∀ cap : Int, ((exts ++ (gathered (s.pads.take e) 0 b e).toArray).size : Int) ≤ cap →
+        ∃ refs, Ext.parse (((bs ++ rest).drop r.padOffset).take r.padLen)
+                  (((bs ++ rest).drop r.padOffset).take r.padLen).length cap ((e - b : Nat) : Int) = .ok refs ∧
+          refs.length = (exts ++ (gathered (s.pads.take e) 0 b e).toArray).size ∧
+          ∀ g, (refs.filter (fun x => x.frame = g)).map (ExtRef.toExt (((bs ++ rest).drop r.padOffset).take r.padLen)) =
+            (allOf (exts ++ (gathered (s.pads.take e) 0 b e).toArray) g).map normExt := by
+  obtain ⟨p, hv, hbs, hfr, htoc, hle, hpar⟩ :=
+    outRangeImpl_ext_full s (reachable_inv hs) (reachable_padsOk hs) b e hb he exts hvx hpos maxlen sd bs h
+  obtain ⟨hparse, hsl⟩ := parse_serialize_frames sd p hv rest hrest
+  subst hbs
+  refine ⟨view sd p, hparse, by rw [hsl, hfr], ?_, htoc, rfl, hle, ?_⟩
+  · simp only [view]; rw [hfr]; exact (selFrames_ok s (reachable_inv hs) b e hb he).2
+  · intro cap hcap
+    rw [padding_of_serialize]
+    exact hpar cap hcap
+
 /-
-  Full statement (P1 `out_roundtrip_ext`), NOT proved — listed in `UNPROVED` of tools/props/C07.py:
-  the theorem below without the hypothesis `NoRepeat` (i.e. also when the generator of
-  src/extensions.c uses its "repeat these extensions" mechanism, ID 2).  It follows from this proof
-  as soon as C16's generate→parse round trip is available without `NoRepeat`.
+  Remaining gap of `out_roundtrip_ext` (listed in `UNPROVED` of tools/props/C07.py): calls WITH the `pad`
+  flag (`opus_packet_pad_impl` with extensions) whose gathered list makes the generator use its repeat
+  mechanism.  There the padding is `0x01 … 0x01` followed by the generator's bytes, and the iterator's
+  `repeat_data` still points at the first `0x01`; C16's reader lemma for repeat blocks (`serAll_steps`)
+  requires `repeat_data` at the start of the generated bytes.  The theorem below covers `pad` for lists in
+  C16's `NoRepeat` class.
 -/
 
 /-- Clause "packets carrying extensions are merged / split correctly" (extension carriage, code after
@@ -651,6 +688,13 @@ example : gathered (exStateX.pads.take 2) 0 1 2 = [{ id := 5, frame := 0, data :
   rw [exPadsX.1]
   simp only [List.take, gathered, h]
   decide +kernel
+
+/-- (c) hypotheses of `out_roundtrip_ext_nopad` with a repeat-eligible list (ID 5 in both frames, on top of the
+    stored extension of frame 1): nothing but validity and non-emptiness is required. -/
+def exR : Array Ext := #[{ id := 5, frame := 0, data := [1], len := 1 }, { id := 5, frame := 1, data := [2], len := 1 }]
+example : AllValid exR (2 - 0) ∧ 0 < (exR ++ (gathered (exStateX.pads.take 2) 0 0 2).toArray).size ∧
+    (2 : Nat) ≤ exStateX.nbFrames :=
+  ⟨allValid_of_all _ _ (by decide +kernel), by simp [exR], by rw [Rp.nbFrames, exPadsX.2]; decide⟩
 
 /-! #### pad_same_decode: the oracle hypothesis is satisfiable, and the packet hypotheses hold for `pkA` -/
 def exOr : Oracle :=
